@@ -164,4 +164,17 @@ def renameDemes (g : Graph) (r : Renaming) : Graph :=
     pulses := g.pulses.map (fun p => { p with sources := p.sources.map r.apply, dest := r.apply p.dest })
     index := rebuildIndex demes }
 
+/-- the checks at the end of `rename_demes` (added by the repair of defect F23): every resulting
+name is a valid identifier, and `len(graph._deme_map) == len(graph.demes)`, i.e. the resulting names
+are pairwise distinct.  (New names that are not strings cannot be expressed in a `Renaming`; the
+implementation raises `TypeError` for them.) -/
+def renameNamesOk (g : Graph) (r : Renaming) : Bool :=
+  let names := g.demes.map (fun d => r.apply d.name)
+  names.all isIdentifier && decide names.Nodup
+
+/-- `Graph.rename_demes(names)` with its validation: the renamed graph, or `ValueError` -/
+def renameDemesChecked (g : Graph) (r : Renaming) : Except Err Graph :=
+  if renameNamesOk g r then pure (renameDemes g r)
+  else valueErr "invalid or colliding deme names after renaming"
+
 end Demes
